@@ -610,10 +610,17 @@ def x_ctor(p):
 # ----------------------------------------------------------------------------- C14
 def plan_params_python(p):
     vmax = p["vmax"]
+    present = p.get("vmax_present", "int")
+    if len(vmax) == 1 and p.get("scalar_vmax", True):
+        v = float(vmax[0]) if present in ("float", "ndarray") else vmax[0]
+    elif present == "float":
+        v = [float(x) for x in vmax]
+    elif present == "ndarray":
+        v = np.array(vmax, dtype=float)     # the caller's own table (it must come back unchanged)
+    else:
+        v = list(vmax)
     return dict(xmin=p["xmin"][0] / p["xmin"][1], xmax=p["xmax"][0] / p["xmax"][1], R=p["R"], C=p["C"],
-                stock=p["stock"][0] / p["stock"][1], mode=p["mode"],
-                vmax=(vmax[0] if len(vmax) == 1 and p.get("scalar_vmax", True) else list(vmax)),
-                min_transfer=p["mint10"] / 10)
+                stock=p["stock"][0] / p["stock"][1], mode=p["mode"], vmax=v, min_transfer=p["mint10"] / 10)
 
 
 def project_plan(plan, p):
@@ -653,13 +660,17 @@ def project_plan(plan, p):
 def x_dilplan(p):
     rt = robotools()
     exc, proj = None, {"instr": [], "x": [], "xsup": False, "vstock": -1, "vdiluent": -1, "vmaxobs": [], "Robs": 0, "Cobs": 0}
+    kept = True
     try:
-        plan = rt.DilutionPlan(**plan_params_python(p))
+        kw = plan_params_python(p)
+        plan = rt.DilutionPlan(**kw)
         proj = project_plan(plan, p)
+        if isinstance(kw["vmax"], (list, np.ndarray)):
+            kept = [float(x) for x in kw["vmax"]] == [float(x) for x in p["vmax"]]
     except Exception as e:  # noqa
         exc = e
     vmax = p["vmax"] if len(p["vmax"]) == p["C"] else [p["vmax"][0]] * p["C"]
-    rec = {"fn": "dilplan", "id": f"R={p['R']} C={p['C']} {p['mode']} stock={p['stock']} xmax={p['xmax']} xmin={p['xmin']} vmax={p['vmax']} mint10={p['mint10']}",
+    rec = {"fn": "dilplan", "vmaxkept": bool(kept), "id": f"R={p['R']} C={p['C']} {p['mode']} stock={p['stock']} xmax={p['xmax']} xmin={p['xmin']} vmax={p['vmax']} mint10={p['mint10']}",
            "R": p["R"], "C": p["C"], "stock": p["stock"], "vmax": vmax, "mint10": p["mint10"], "out": outcome_class(exc),
            "small": max(vmax) <= 50}
     rec.update(proj)
